@@ -10,7 +10,7 @@ from vlib import Rng
 
 BOUNDARY = ["0", "1", "len-1", "len", "len+1", "2^31", "2^32-1"]
 SAMPLES = ["test.dmp", "linux-mini.dmp", "simple-crashpad.dmp", "invalid-parameter.dmp", "pipeline-inlines-macos-segv.dmp"]
-MODEL_FIELDS = ["R", "SI", "TL", "ML", "UM", "MEM", "M64", "MI", "TI", "TN", "HD", "EX", "EXP"]
+MODEL_FIELDS = ["R", "SI", "TL", "ML", "UM", "MEM", "M64", "MI", "TI", "TN", "HD", "EX", "EXP", "EXC"]
 # tighter than the brief's max(1 MiB, 64*len^2): the largest single request is LINEAR in the input
 PK_FLOOR = 64 * 1024
 PK_PER_BYTE = 16
@@ -540,7 +540,7 @@ class C01(PropBase):
     trusted_base = [
         "Coq 8.16.1 kernel; vm_compute only in witnesses (c01_*_refuted) and non-vacuity examples",
         "hand-written model C01/Model.v of minidump.rs's list/string/directory/handle/exception machinery and of scroll 0.12's Pread bounds rule; "
-        "tied to the code by the correspondence run (13 fields per case + the largest ledger entry as a lower bound of the measured peak request)",
+        "tied to the code by the correspondence run (14 fields per case + the largest ledger entry as a lower bound of the measured peak request)",
         "in-memory element sizes (size_of) in the ledger are compared with the harness's SIZES line on every run",
         "extraction: ExtrOcamlBasic only; ocaml/zconv.ml + ocaml/c01/main.ml; harness/src/bin/c01.rs with its counting global allocator and watchdog",
         "the model runs profile Debug; Release differs only where a chk_* site would wrap, which c01_no_panic excludes",
@@ -560,7 +560,7 @@ class C01(PropBase):
                 "(c01_*_unfixed_refuted: F-C01a..d). The rest of the property lives in the runtime and is searched, not proved: a harness with a counting "
                 "global allocator and a watchdog opens each case, requests all 24 stream types, runs every accessor and print routine, and an oracle "
                 "requires no panic, termination and a largest single allocation <= max(64 KiB, 16*len); the extracted model must agree with the real "
-                "reader on 13 observables per case.",
+                "reader on 14 observables per case.",
         "note": "Trusted: Coq kernel; hand-written model (correspondence-checked on every run, not verified against the Rust source); scroll's Pread "
                 "bounds rule as read from its source; extraction + OCaml/Rust glue; the counting allocator. Not covered by theorem: contents of streams "
                 "outside the list machinery, all printers (incl. MinidumpContext::print), encoding_rs/time, C08's range maps. No axioms.",
@@ -614,9 +614,9 @@ class C01(PropBase):
             v = f[k]
             if v.startswith("!P("):
                 v = "!P"
-            elif k in ("TL", "EX") and v.startswith("ok:"):
+            elif k == "TL" and v.startswith("ok:"):
                 v = "ok:" + v.split(":")[1]
-            elif k == "EXP" and v == "-":
+            elif k in ("EXP", "EXC") and v == "-":
                 v = "ok"
             out.append("%s=%s" % (k, v))
         return ";".join(out)
